@@ -39,66 +39,41 @@ theorem noExtras_after (cfg : Cfg) (P : Store) (now now1 : Tick) (exec : Id → 
     · simp [hd, purge, ho] at hP'
     · simp only [hd, Bool.false_eq_true, if_false] at hP'
       unfold store at hP'
-      by_cases hxl : extrasLeft cfg P now = true
-      · cases hpost : postState cfg P now now1 exec i with
-        | none => simp [hpost, midStore, hxl, purge, ho] at hP'
-        | some h =>
-          simp only [hpost] at hP'
-          by_cases hdirty : h.dirty = true
-          · simp only [hdirty, if_true, Option.some.injEq] at hP'
-            subst hP'
-            exact Or.inr (postState_dirty_selected ho hex hpost hdirty)
-          · simp [hdirty, midStore, hxl, purge, ho] at hP'
-      · -- every record of a superseded purpose belonged to a selected handler and was re-purposed:
-        -- nothing is purged, and nothing of another purpose is left
-        have hxl' : extrasLeft cfg P now = false := by simpa using hxl
-        cases hpost : postState cfg P now now1 exec i with
-        | none =>
-          simp only [hpost, midStore, hxl', Bool.false_eq_true, if_false] at hP'
-          exfalso
-          have hpre : ∃ h0, preState cfg P now i = some h0 := by
-            unfold preState
-            by_cases hs : i ∈ cfg.selected <;>
-              by_cases hx : hasExtras (withHandlers (fromStorage P cfg.owned) cfg.selected cfg.reason now)
-                  (known cfg) cfg.reason = true <;>
-              simp [hx, repurpose, withHandlers, fromStorage, hs, ho, hP']
-          obtain ⟨h0, hp0⟩ := hpre
-          obtain ⟨h1, hp1, _⟩ := postState_of_pre (now1 := now1) (exec := exec) hp0
-          rw [hpost] at hp1
-          cases hp1
-        | some h =>
-          simp only [hpost] at hP'
-          by_cases hdirty : h.dirty = true
-          · simp only [hdirty, if_true, Option.some.injEq] at hP'
-            subst hP'
-            exact Or.inr (postState_dirty_selected ho hex hpost hdirty)
-          · have hdirty' : h.dirty = false := by simpa using hdirty
-            simp only [hdirty', Bool.false_eq_true, if_false, midStore, hxl'] at hP'
-            have hpost' := hpost
-            unfold postState at hpost'
-            obtain ⟨h0, hp0, _, heq⟩ := execOnce_st_some hpost'
-            have h0eq := heq hdirty'
-            subst h0eq
-            by_cases hs : i ∈ cfg.selected
-            · rw [preState_extras_selected hex hs ho hP'] at hp0
-              cases hp0
-              right
-              simpa using hdirty'
-            · have hpre : preState cfg P now i = some { r := r, active := false, dirty := false } := by
-                unfold preState
-                unfold extras at hex
-                rw [if_pos hex]
-                simp [repurpose, withHandlers, fromStorage, hs, ho, hP']
-              unfold extrasLeft hasExtras at hxl'
-              rw [List.any_eq_false] at hxl'
-              have := hxl' i (by simp [known, ho])
-              rw [hpre] at this
-              cases hp : r.purpose with
-              | none => exact Or.inl rfl
-              | some q =>
-                right
-                simp [hp] at this
-                rw [this]
+      cases hpost : postState cfg P now now1 exec i with
+      | none =>
+        simp only [hpost] at hP'
+        exfalso
+        have hPi := midStore_some hP'
+        have hpre : ∃ h0, preState cfg P now i = some h0 := by
+          unfold preState
+          by_cases hs : i ∈ cfg.selected <;>
+            by_cases hx : hasExtras (withHandlers (fromStorage P cfg.owned) cfg.selected cfg.reason now)
+                (known cfg) cfg.reason = true <;>
+            simp [hx, repurpose, withHandlers, fromStorage, hs, ho, hPi]
+        obtain ⟨h0, hp0⟩ := hpre
+        obtain ⟨h1, hp1, _⟩ := postState_of_pre (now1 := now1) (exec := exec) hp0
+        rw [hpost] at hp1
+        cases hp1
+      | some h =>
+        simp only [hpost] at hP'
+        by_cases hdirty : h.dirty = true
+        · simp only [hdirty, if_true, Option.some.injEq] at hP'
+          subst hP'
+          exact Or.inr (postState_dirty_selected ho hex hpost hdirty)
+        · have hdirty' : h.dirty = false := by simpa using hdirty
+          simp only [hdirty', Bool.false_eq_true, if_false] at hP'
+          have hPi := midStore_some hP'
+          have hpost' := hpost
+          unfold postState at hpost'
+          obtain ⟨h0, hp0, _, heq⟩ := execOnce_st_some hpost'
+          have h0eq := heq hdirty'
+          subst h0eq
+          by_cases hs : i ∈ cfg.selected
+          · rw [preState_extras_selected hex hs ho hPi] at hp0
+            cases hp0
+            right
+            simpa using hdirty'
+          · exact midStore_unselected_purpose ho hs hP'
   · have hex' : extras cfg P now = false := by simpa using hex
     exact noExtras_preserved cfg P now now1 exec hsub (noExtras_of_extras_false hex')
 
